@@ -277,6 +277,24 @@ class Interp(object):
                     break
                 except SyntaxError:
                     continue
+            if tree is None and code.co_name == '<lambda>':
+                # a lambda inside a fragment that is not an expression (e.g. a default value in a def header):
+                # take the longest parsable expression starting at each 'lambda'
+                flat = src
+                cands = []
+                start = flat.find('lambda')
+                while start >= 0:
+                    for end in range(len(flat), start + 6, -1):
+                        try:
+                            t = ast.parse(flat[start:end].strip(), mode='eval')
+                        except SyntaxError:
+                            continue
+                        if isinstance(t.body, ast.Lambda):
+                            cands.append(t)
+                            break
+                    start = flat.find('lambda', start + 6)
+                if cands:
+                    tree = ast.Module(body=[ast.Expr(value=t.body) for t in cands], type_ignores=[])
             if tree is None:
                 raise Unsupported("cannot parse source of %r" % (fn,))
         node = None
@@ -553,6 +571,8 @@ class Interp(object):
             t.__name__, ka.__name__, kb.__name__))
 
     def contains(self, container, needle):
+        if isinstance(container, SymMap):
+            return map_contains(self, container, needle)
         if isinstance(container, Sym):
             if isinstance(container, SStr):
                 lit = container._lit(needle)
@@ -592,6 +612,8 @@ class Interp(object):
     _prop_cache = {}
 
     def getattr(self, obj, name):
+        if isinstance(obj, SymMap):
+            return map_getattr(self, obj, name)
         if isinstance(obj, (Sym, FmtStr, SymSeq)):
             return sym_getattr(self, obj, name)
         tp = type(obj)
@@ -645,6 +667,8 @@ class Interp(object):
         return None
 
     def getitem(self, obj, idx):
+        if isinstance(obj, SymMap):
+            return map_getitem(self, obj, idx)
         if isinstance(obj, (Sym, FmtStr, SymSeq)) or isinstance(idx, (Sym, FmtStr)):
             return sym_getitem(self, obj, idx)
         d = self.dunder(obj, '__getitem__')
@@ -653,6 +677,8 @@ class Interp(object):
         return obj[idx]
 
     def setitem(self, obj, idx, value):
+        if isinstance(obj, SymMap):
+            return map_setitem(self, obj, idx, value)
         if isinstance(obj, Sym) or isinstance(idx, Sym):
             raise Unsupported("symbolic item store")
         if self.store_hook is not None:
@@ -1542,7 +1568,7 @@ def _has_yield(node):
 
 def _has_sym(args, kwargs):
     for a in args:
-        if isinstance(a, (Sym, FmtStr, SymSeq, SymSlice)):
+        if isinstance(a, (Sym, FmtStr, SymSeq, SymSlice, SymMap)):
             return True
         if type(a) in (list, tuple) and any(isinstance(x, (Sym, FmtStr, SymSeq)) for x in a):
             return True
@@ -1571,3 +1597,4 @@ class BoundModel(object):
 
 from .text import FmtStr, fmt_binop, fmt_compare, SymSeq, sym_getattr, sym_getitem  # noqa: E402
 from .models import BUILTIN_MODELS, METHOD_MODELS  # noqa: E402
+from .symmap import SymMap, map_getattr, map_getitem, map_setitem, map_contains  # noqa: E402
